@@ -31,12 +31,15 @@ def W(w):
     return "".join(w)
 
 
+GEN_B = {0: np.array([[1.0, 0.0], [2.0, 1.0]]), 1: np.array([[1.0, 0.0], [3.0, 1.0]])}
+
+
 def make_rep(names=None):
     from geometry_tools import representation
     rep = representation.Representation()
     a, b = ("a", "b") if names is None else names
     rep[a] = np.array([[1.0, 2.0], [0.0, 1.0]])
-    rep[b] = np.array([[1.0, 0.0], [2.0, 1.0]])
+    rep[b] = GEN_B[0].copy()
     return rep
 
 
@@ -52,7 +55,7 @@ def parse_eval(stdout):
     for line in stdout.splitlines():
         if line.startswith('"EVAL '):
             tab = json.loads(json.loads(line)[5:])
-            return {tuple(w): np.array(m, dtype=float) for w, m in tab}
+            return {v: {tuple(w): np.array(m, dtype=float) for vv, w, m in tab if vv == v} for v in (0, 1)}
     raise core.MachineryFailure("no EVAL table printed by Enumerate.tla")
 
 
@@ -109,6 +112,13 @@ def single_calls_chunk(args):
         if 0 not in vs:
             continue
         f = make_fsa(vs, E)
+        if E:
+            # the same automaton reached through an edit history: built without one edge (a parallel one if
+            # there is any), the edge added afterwards
+            par = [e for e in sorted(E) if any(o != e and o[0] == e[0] and o[2] == e[2] for o in E)]
+            last = (par or sorted(E))[-1]
+            f = make_fsa(vs, E - {last})
+            f.add_edges([(last[0], last[2], last[1])])
         relab = {"a": "s0", "B": "S1", "b": "s1", "A": "S0"}
         f2 = make_fsa(vs, E, relabel=relab)
         for dirn in ("none", "start", "end"):
@@ -126,12 +136,12 @@ def single_calls_chunk(args):
                                 n += 1
                                 try:
                                     res = rep.automaton_accepted(f, L, **kw)
-                                    bad = check_result(res, want, ww, EVAL)
+                                    bad = check_result(res, want, ww, EVAL[0])
                                     if bad is None and not ew:
                                         # multi-character generator names, labels read as single generators
                                         res2 = rep2.automaton_accepted(f2, L, **kw)
                                         want2 = [tuple(relab[x] for x in w) for w in want]
-                                        ev2 = {tuple(relab[x] for x in w): m for w, m in EVAL.items()}
+                                        ev2 = {tuple(relab[x] for x in w): m for w, m in EVAL[0].items()}
                                         bad = check_result(res2, want2, ww, ev2)
                                         if bad:
                                             bad = ("multichar:" + bad[0], bad[1])
@@ -152,7 +162,6 @@ def single_calls_chunk(args):
 
 def replay_lts_chunk(args):
     inits, = args
-    rep = make_rep()
     n = 0
     viol = []
     nstates = 0
@@ -161,12 +170,25 @@ def replay_lts_chunk(args):
         vs, E = ik[0], ik[1]
         f = make_fsa(vs, E)
         seen = {ik}
-        frontier = [(ik, {}, ())]
+        frontier = [(ik, {}, (), make_rep())]
         while frontier:
             nxt = []
-            for (sk, memo, hist) in frontier:
+            for (sk, memo, hist, rep0) in frontier:
                 nstates += 1
                 for act, tk in LTS.get(sk, []):
+                    import copy as _copy
+                    rep = _copy.deepcopy(rep0)
+                    if act["a"] == "reassign":
+                        # the SAME representation object gets a new matrix for "b" (its inverse "B" is recomputed)
+                        rep["b"] = GEN_B[act["ver"]].copy()
+                        n += 1
+                        h2 = hist + ("reassign(b:=version %d)" % act["ver"],)
+                        # the representation may carry hidden state from the calls made before (caches): every
+                        # predecessor is continued separately, not only the first one reaching this spec state
+                        if (tk, sk) not in seen:
+                            seen.add((tk, sk))
+                            nxt.append((tk, {}, h2, rep))
+                        continue
                     m2 = dict(memo)
                     kw = dict(maxlen=act["maxlen"], with_words=act["with_words"], precomputed=m2)
                     if act["dir"] == "start":
@@ -177,7 +199,7 @@ def replay_lts_chunk(args):
                     n += 1
                     try:
                         res = rep.automaton_accepted(f, act["L"], **kw)
-                        bad = check_result(res, [tuple(w) for w in act["words"]], act["with_words"], EVAL)
+                        bad = check_result(res, [tuple(w) for w in act["words"]], act["with_words"], EVAL[tk[5]])
                         if bad is None:
                             bad = check_memo(m2, tk, act, vs, E)
                     except Exception as e:
@@ -190,7 +212,7 @@ def replay_lts_chunk(args):
                         sample = dict(kind="memo history", vs=sorted(vs), E=sorted(E), calls=list(h2), last_words=[W(w) for w in act["words"]])
                     if tk not in seen:
                         seen.add(tk)
-                        nxt.append((tk, m2, h2))
+                        nxt.append((tk, m2, h2, rep))
             frontier = nxt
     return n, viol, nstates, sample
 
@@ -238,7 +260,7 @@ def check_memo(memo, tk, act, vs, E):
             return ("memo.key", "memo holds key %r outside the specified set %r" % (key, sorted(allowed)))
         L, st = key
         want = ref(mode[0], st, L, mode[1])
-        bad = check_result(val, want, mode[2], EVAL)
+        bad = check_result(val, want, mode[2], EVAL[tk[5]])
         if bad:
             return ("memo[%r]:%s" % (key, bad[0]), bad[1])
     return None
@@ -246,7 +268,7 @@ def check_memo(memo, tk, act, vs, E):
 
 def lts_key(s):
     return (frozenset(s["vs"]), frozenset(tuple(e) for e in s["E"]), frozenset(tuple(k) for k in s["mk"]),
-            tuple(s["mode"]), s["n"])
+            tuple(s["mode"]), s["n"], s["ver"])
 
 
 def free_reduced(run):
